@@ -427,13 +427,51 @@ func (e *SpecEnv) call(n *SCall) Val {
 		r := e.Eval(n.Args[0])
 		sk, _ := x.readerKeys()
 		return Val{T: "(select " + x.getHeap(e.st, sk) + " " + r.T + ")", S: x.bytesSort(), Ty: bytesT()}
+	case "struct":
+		// struct("pkg.T", f1, f2, ...): a struct value, fields in declaration order
+		ty, srt := x.resolveTypeName(e.pkg, specSrc(n.Args[0]))
+		si := x.u.structSort(ty)
+		if si == nil || len(n.Args)-1 != len(si.fields) {
+			specFail("struct(%s): wrong number of fields", specSrc(n.Args[0]))
+		}
+		var ts []string
+		for _, a := range n.Args[1:] {
+			ts = append(ts, e.Eval(a).T)
+		}
+		return Val{T: "(mk_" + srt + " " + strings.Join(ts, " ") + ")", S: srt, Ty: ty}
+	case "stored", "storedBytes":
+		// ghost view of the VAA store of a *db.Database, keyed by vaa.VAAID values
+		d := e.Eval(n.Args[0])
+		id := e.Eval(n.Args[1])
+		has, val := x.storeKeys(id.S)
+		if n.Fun == "stored" {
+			return Val{T: fmt.Sprintf("(select (select %s %s) %s)", x.getHeap(e.st, has), d.T, id.T), S: "Bool"}
+		}
+		return Val{T: fmt.Sprintf("(select (select %s %s) %s)", x.getHeap(e.st, val), d.T, id.T), S: x.bytesSort(), Ty: bytesT()}
+	case "storeUnchanged", "storeUnchangedExcept":
+		d := e.Eval(n.Args[0])
+		var idS string
+		guard := "true"
+		q := "k$q" + fmt.Sprint(x.nextQ())
+		if n.Fun == "storeUnchangedExcept" {
+			id := e.Eval(n.Args[1])
+			idS = id.S
+			guard = "(not (= " + q + " " + id.T + "))"
+		} else {
+			_, idS = x.resolveTypeName(x.eng.pkgs["github.com/alephium/wormhole-fork/node/pkg/vaa"], "VAAID")
+		}
+		has, val := x.storeKeys(idS)
+		h1 := fmt.Sprintf("(select (select %s %s) %s)", x.getHeap(e.st, has), d.T, q)
+		h0 := fmt.Sprintf("(select (select %s %s) %s)", x.getHeap(e.old, has), d.T, q)
+		v1 := fmt.Sprintf("(select (select %s %s) %s)", x.getHeap(e.st, val), d.T, q)
+		v0 := fmt.Sprintf("(select (select %s %s) %s)", x.getHeap(e.old, val), d.T, q)
+		return Val{T: fmt.Sprintf("(forall ((%s %s)) (=> %s (and (= %s %s) (= %s %s))))", q, idS, guard, h1, h0, v1, v0), S: "Bool"}
 	case "bigOf":
 		r := e.Eval(n.Args[0])
 		return Val{T: "(select " + x.getHeap(e.st, x.bigKey()) + " " + r.T + ")", S: "Int"}
 	case "nsent":
 		c := e.Eval(n.Args[0])
-		x.u.regHeap("chan.nsent", "(Array Int Int)")
-		return Val{T: "(select " + x.getHeap(e.st, "chan.nsent") + " " + c.T + ")", S: "Int"}
+		return Val{T: "(select " + x.getHeap(e.st, x.nsentKey(x.chanElemSort(c.Ty))) + " " + c.T + ")", S: "Int"}
 	case "lastsent":
 		c := e.Eval(n.Args[0])
 		ct, ok := c.Ty.Underlying().(*types.Chan)
@@ -752,14 +790,24 @@ func (x *Exec) placeKeys(pkg *packages.Package, place string) []string {
 			x.readerKeys()
 		case "big.Int.v":
 			x.u.regHeap("big.Int.v", "(Array Int Int)")
+		case "db.store":
+			_, idS := x.resolveTypeName(x.eng.pkgs["github.com/alephium/wormhole-fork/node/pkg/vaa"], "VAAID")
+			has, val := x.storeKeys(idS)
+			return []string{has, val}
 		default:
 			specFail("unknown library place %s", k)
 		}
 		return []string{k}
 	}
+	if strings.HasPrefix(place, "chan:") {
+		// channels carrying the given element type
+		_, es := x.resolveTypeName(pkg, strings.TrimPrefix(place, "chan:"))
+		lk := "chan.last." + sortId(es)
+		x.u.regHeap(lk, "(Array Int "+es+")")
+		return []string{x.nsentKey(es), lk}
+	}
 	if place == "chan" {
 		var ks []string
-		x.u.regHeap("chan.nsent", "(Array Int Int)")
 		for k := range x.u.heapKeys {
 			if strings.HasPrefix(k, "chan.") {
 				ks = append(ks, k)
@@ -802,4 +850,10 @@ func (x *Exec) placeKeys(pkg *packages.Package, place string) []string {
 	}
 	specFail("place %q: no such field", place)
 	return nil
+}
+
+func (x *Exec) storeKeys(idSort string) (string, string) {
+	x.u.regHeap("db.store.has", "(Array Int (Array "+idSort+" Bool))")
+	x.u.regHeap("db.store.val", "(Array Int (Array "+idSort+" "+x.bytesSort()+"))")
+	return "db.store.has", "db.store.val"
 }
